@@ -41,7 +41,14 @@ def _memoize_default(default=_NO_DEFAULT, inference_state_is_first_arg=False,
             else:
                 if default is not _NO_DEFAULT:
                     memo[key] = default
-                rv = function(obj, *args, **kwargs)
+                try:
+                    rv = function(obj, *args, **kwargs)
+                except BaseException:
+                    # The default is only there for recursions. Don't keep it
+                    # as the result of something that was never computed.
+                    if default is not _NO_DEFAULT:
+                        del memo[key]
+                    raise
                 memo[key] = rv
                 return rv
         return wrapper
